@@ -63,13 +63,17 @@ struct R : Runner {
 		b[N - 1] = g.below(2);
 		// exponent class: zero, one, all-ones, all-ones minus one, middle (bias), random
 		uint64_t e; uint64_t emaxall = (ES >= 64) ? ~0ull : ((1ull << ES) - 1);
-		switch (g.below(7)) {
+		// wide exponent fields: mostly near the bias (the rounding logic does not depend on the scale and
+		// the exact-rational judge is quadratic in the magnitude of the exponent), extremes less often
+		unsigned ec = (unsigned)g.below(ES >= 9 ? 40 : 7);
+		switch (ec) {
 		case 0: e = 0; break;
 		case 1: e = 1; break;
 		case 2: e = emaxall; break;
 		case 3: e = emaxall - 1; break;
 		case 4: e = (emaxall >> 1) + g.below(3) - 1; break;
-		default: e = g.next() & emaxall; break;
+		case 5: case 6: e = g.next() & emaxall; break;
+		default: e = (emaxall >> 1) + g.below(80) - 40; break;
 		}
 		for (unsigned i = 0; i < ES; ++i) b[FB + i] = (e >> i) & 1;
 		// fraction class: zero, ones, ones minus one, one, random, sparse top, sparse bottom
